@@ -35,6 +35,7 @@ func here() frame {
 type cx struct {
 	lg     slog.Logger
 	sl     *logslog.Logger
+	slw    *logslog.Logger // derived: sl.With(...).WithGroup(...)
 	std    *log.Logger
 	ctx    context.Context
 	leaf   func(c *cx)
@@ -112,7 +113,10 @@ func run(t vlib.TB, test string, sc scenario) {
 	}
 	if sc.Skip > 0 || sc.SkipHow == "SetSkip" || sc.PrevSkip >= 0 {
 		if sc.SkipHow == "WithSkip" {
+			parent := lg
 			lg = lg.WithSkip(sc.Skip)
+			// a sibling with another skip count, created afterwards, must not change this one
+			_ = parent.WithSkip(sc.Skip + 1 + sc.Depth%2)
 		} else {
 			lg.SetSkip(sc.Skip)
 		}
@@ -126,6 +130,7 @@ func run(t vlib.TB, test string, sc scenario) {
 	case "adapter", "adapterpkg":
 		h := slog.NewSlogHandler(lg, &slog.HandlerOptions{NoColor: sc.Format != "color", JSON: sc.Format == "json"})
 		c.sl = logslog.New(h)
+		c.slw = c.sl.With("derived", true).WithGroup("g1")
 		if st.Kind == "adapterpkg" {
 			old := logslog.Default()
 			logslog.SetDefault(c.sl)
